@@ -1,3 +1,26 @@
+/// `print!` for the results. When standard output cannot be written to (the
+/// reader of the pipe has gone away, the disk is full) there is nobody left
+/// to report to: the program ends, with a failure status, instead of
+/// panicking.
+macro_rules! out {
+    ($($arg:tt)*) => {{
+        use std::io::Write as _;
+        if write!(std::io::stdout(), $($arg)*).is_err() {
+            std::process::exit(1);
+        }
+    }};
+}
+
+/// `println!` for the results, see `out!`.
+macro_rules! outln {
+    ($($arg:tt)*) => {{
+        use std::io::Write as _;
+        if writeln!(std::io::stdout(), $($arg)*).is_err() {
+            std::process::exit(1);
+        }
+    }};
+}
+
 mod printer;
 use pretty_print_options::PrettyPrintOptions;
 use printer::*;
@@ -348,9 +371,9 @@ fn main() {
                     // if debug, print out the cfg
                     if lint.yaml {
                         let wrapped = riscv_analysis::cfg::CfgWrapper::from(&full_cfg);
-                        println!("{}", serde_yaml::to_string(&wrapped).unwrap());
+                        outln!("{}", serde_yaml::to_string(&wrapped).unwrap());
                     } else if lint.debug {
-                        println!("{}", full_cfg);
+                        outln!("{}", full_cfg);
                     }
                     let mut errs = DiagnosticManager::new();
                     Manager::run_diagnostics(&full_cfg, &mut errs);
@@ -382,7 +405,7 @@ fn main() {
                     );
                     printer.display_errors(&parser);
                     #[cfg(feature = "c229")]
-                    println!("You are using an alpha version of this software. Please report any bugs to the developers.");
+                    outln!("You are using an alpha version of this software. Please report any bugs to the developers.");
                 }
             }
         }
@@ -393,7 +416,7 @@ fn main() {
             let mut parser = RVParser::new(reader);
             let parsed = parser.parse_from_file(&debu.input.to_string_lossy(), true);
             for err in parsed.1 {
-                println!(
+                outln!(
                     "({}, {}): {}",
                     parser
                         .reader
